@@ -144,6 +144,13 @@ def analyse(scn, out):
                     observed = None        # the quantity that reached the validators is not observable
                 else:
                     observed = 'None'
+                if not valid_px:
+                    # C16: without a valid market price no order may come into being, whatever the style (a limit price is not market data)
+                    cx.case('validate.no_price', 'chk_intent (None) %s' % (intent_lit(created[0]) if created else 'None'),
+                            dict(act=act, created=created[:1], rejects=rejects, phase=m0['ph'], dt=snap['cal']))
+                    cx.keys.add(repr(('NOPRICE', op, is_limit, bool(rejects))))
+                    if created:
+                        cx.hit('C16.no_price_accepted', dict(op=op, limit=is_limit), dict(act=act, order=created[0], dt=snap['cal'], last_price=px_last))
                 if observed is not None and not ambiguous:
                     cx.case('sizing.stock', 'chk_intent (%s) %s' % (model_term, observed), dict(act=act, created=created[:1], rejects=rejects, phase=m0['ph'], dt=snap['cal'],
                                                                                              state=dict(quantity=quantity, closable=closable, cash=cash, total_value=tv, market_value=mv, price=price)))
